@@ -66,11 +66,11 @@ struct Hdr {
   int version;
   size_t isutcnt, isstdcnt, leapcnt, timecnt, typecnt, charcnt;
 };
-inline bool read_hdr(const std::string& b, size_t pos, Hdr* h) {
+inline bool read_hdr(const std::string& b, size_t pos, Hdr* h, bool lenient = false) {
   if (b.size() < pos + 44) return false;
   if (b.compare(pos, 4, "TZif") != 0) return false;
   unsigned char v = static_cast<unsigned char>(b[pos + 4]);
-  h->version = (v == 0) ? 1 : (v >= '2' && v <= '9') ? v - '0' : -1;
+  h->version = (v == 0) ? 1 : (v >= '2' && v <= '9') ? v - '0' : (lenient ? 2 : -1);
   size_t* f[6] = {&h->isutcnt, &h->isstdcnt, &h->leapcnt,
                   &h->timecnt, &h->typecnt,  &h->charcnt};
   for (int i = 0; i < 6; ++i) {
@@ -87,11 +87,12 @@ inline size_t block_len(const Hdr& h, int tl) {
 }  // namespace tzif_detail
 
 // Structural read only (what the bytes say); no semantic validation.
-inline TzifRaw read_tzif(const std::string& b) {
+// lenient: any non-NUL version byte means "version 2+" (what cctz does); used only to DESCRIBE inputs.
+inline TzifRaw read_tzif(const std::string& b, bool lenient = false) {
   using namespace tzif_detail;
   TzifRaw r;
   Hdr h;
-  if (!read_hdr(b, 0, &h)) {
+  if (!read_hdr(b, 0, &h, lenient)) {
     r.why = "bad first header";
     return r;
   }
@@ -109,7 +110,7 @@ inline TzifRaw read_tzif(const std::string& b) {
       return r;
     }
     pos += skip;
-    if (!read_hdr(b, pos, &h) || h.version < 2) {
+    if (!read_hdr(b, pos, &h, lenient) || h.version < 2) {
       r.why = "bad second header";
       return r;
     }
